@@ -77,6 +77,7 @@ func cmdReplay(args []string) int {
 	file := fl.String("file", "", "replay file")
 	quiet := fl.Bool("quiet", false, "print only the verdict")
 	steer := fl.String("steer", "", "comma separated steering rules in force")
+	dump := fl.Bool("dump", false, "dump the final file system and fsck it")
 	fl.Parse(args)
 	if *file == "" && fl.NArg() > 0 {
 		*file = fl.Arg(0)
@@ -93,6 +94,9 @@ func cmdReplay(args []string) int {
 			fmt.Println(l)
 		}
 		fmt.Printf("outcome=%s steps=%d sim_time=%dns worlds=%d\n", out.Outcome, out.Steps, out.SimTime, out.Worlds)
+		if *dump && out.FinalFS != nil {
+			harness.DumpFS(out.FinalFS, rf.Plan)
+		}
 	}
 	if out.Viol != nil {
 		fmt.Printf("REPLAY-VIOLATION property=%s class=%s\n%s\n", rf.Property, out.Viol.Class, out.Viol.Msg)
